@@ -77,7 +77,12 @@ fn main() {
             // a saved input is judged with logging at the binary's default level and at the most talkative one
             for level in [3u8, 5] {
                 h8verif::engine::logctl::freeze(level);
-                match h8verif::checks::dispatch(&id, &c) {
+                let r = std::panic::catch_unwind(std::panic::AssertUnwindSafe(|| h8verif::checks::dispatch(&id, &c)));
+                let Ok(r) = r else {
+                    eprintln!("HARNESS ERROR: {} did not complete the replay of a saved input (see above); this is not a verdict about the property", id);
+                    std::process::exit(2);
+                };
+                match r {
                     Some(1) => {
                         failed += 1;
                         break;
